@@ -37,3 +37,5 @@ def run(prog, rep):
     _rk2.run_ctor_pairs(prog, rep)
     from ..rules import r_io as _rio2s
     _rio2s.run_strio(prog, rep)
+    from ..rules import r_unit as _runs
+    _runs.run_no_static_state(prog, rep)
